@@ -43,9 +43,22 @@ class Clock:
 
 
 # ============================================================================ models
+class _EvictObserver:
+    """An eviction observer that fails for some victims: every victim is still reported, once, in eviction order."""
+
+    def __init__(self):
+        self.seen = []
+
+    def __call__(self, k, v, c):
+        self.seen.append((k, v, c))
+        if (len(str(k)) + len(self.seen)) % 2 == 0:
+            raise RuntimeError("observer failure")
+
+
 class MBytes:
     def __init__(s, me, mb):
         s.me, s.mb, s.q = int(me or 0), int(mb or 0), []  # q: [k, v, cost] LRU->MRU
+        s.victims = []  # every eviction, in order (what an eviction observer is told)
 
     def _find(s, k):
         for i, e in enumerate(s.q):
@@ -68,6 +81,7 @@ class MBytes:
             e = s.q.pop(0)
             n += 1
             b += e[2]
+            s.victims.append((e[0], e[1], e[2]))
         return (n, b)
 
     def get(s, k):
@@ -237,7 +251,10 @@ def subj_lrubytes(me, mb):
           [("get", k) for k in KEYS] + [("contains", k) for k in KEYS] + [("clear",)]
 
     def make():
-        return LRUBytes(me, mb), MBytes(me, mb), None
+        obs = _EvictObserver()
+        r_ = LRUBytes(me, mb, on_evict=obs)
+        r_._verif_seen = obs.seen  # (one list object, also after the explorer deep-copies the cache)
+        return r_, MBytes(me, mb), None
 
     def apply(r, m, clk, op):
         if op[0] == "put":
@@ -251,10 +268,10 @@ def subj_lrubytes(me, mb):
         return None, None
 
     def view_r(r, clk):
-        return dict(keys=list(r.keys()), items=list(r.items()), n=len(r), bytes=r.size_bytes())
+        return dict(keys=list(r.keys()), items=list(r.items()), n=len(r), bytes=r.size_bytes(), told=list(r._verif_seen))
 
     def view_m(m, clk):
-        return m.view()
+        return dict(m.view(), told=list(m.victims))
 
     def inv(r):
         out = []
